@@ -71,6 +71,8 @@ def run(chk):
                       "(classification and accessors write none of them)", 4)
     if chk.want("R12.6"):
         r12_6(chk, uc)
+    if chk.want("R12.3"):
+        r12_unique(chk, uc)
     hook = volume_hook(uc)
     ev = uc.ev("UnitCell.set_lengths_and_angles", call_hook=hook, attr_hook=property_hook(uc, "UnitCell"))
     chk.saw(UC, "UnitCell.set_lengths_and_angles")
@@ -351,6 +353,31 @@ def r12_4(chk, repo, uc):
     chk.ob("R12.4", UC, "UnitCell.hexagonal", "hexagonal passes radian literals and forces unit='radians'",
            unit is not None and string_value(unit) == "radians" and tag_of(call[0].extra["args"][1]) == "rad",
            found=f"unit={unit} angles={call[0].extra['args'][1] if call else None}")
+
+
+def r12_unique(chk, uc):
+    """unique_parameters_deg is unique_parameters with the angles in degrees, entry by entry, in every branch of _set_cell_type."""
+    ev = uc.ev("UnitCell._set_cell_type", attr_hook=None)
+    chk.saw(UC, "UnitCell._set_cell_type")
+    by_guard = {}
+    for e in ev.events:
+        if e.kind == "store" and e.target.key() in ("self.unique_parameters", "self.unique_parameters_deg"):
+            g = tuple((c.key(), p) for c, p in e.guards)
+            by_guard.setdefault(g, {})[e.target.key()] = e.value
+    n = 0
+    for g, d in by_guard.items():
+        u, dg = d.get("self.unique_parameters"), d.get("self.unique_parameters_deg")
+        if u is None or dg is None:
+            continue
+        n += 1
+        ui = seq_items(u)
+        di = seq_items(dg) if dg.key() != "self.unique_parameters" else ui
+        ok = ui is not None and di is not None and len(ui) == len(di) and all(
+            x.key() == y.key() or y.key() == f"degrees({x})" for x, y in zip(ui, di))
+        name = [c for c, p in g if p][-1][:40] if any(p for c, p in g) else "else"
+        chk.ob("R12.3", UC, "UnitCell._set_cell_type", f"branch {name}: unique_parameters_deg lists the same parameters as unique_parameters, angles in degrees",
+               ok, fingerprint=f"unique-deg:{name}", expected=str(u)[:100], found=str(dg)[:100])
+    chk.need(n >= 5, f"_set_cell_type: only {n} branches with both parameter tuples found")
 
 
 def r12_6(chk, uc):
